@@ -1,6 +1,6 @@
 #!/bin/bash
 # try_seed.sh <patch.diff> <Cxx> [tier] [extra vcheck args]: apply a seeded change to /repo, run the check, undo it straight afterwards.
-PATCH=$1; P=$2; TIER=${3:-quick}; shift 3 2>/dev/null
+PATCH=$1; P=$2; TIER=${3:-quick}; if [ $# -ge 3 ]; then shift 3; else shift $#; fi
 cd /repo && git diff --quiet || { echo "repo dirty"; exit 9; }
 git -C /repo apply "$PATCH" || { echo "patch does not apply"; exit 8; }
 cd /verif && timeout 3000 bin/vcheck $P --tier $TIER "$@" > /tmp/try_seed.$$.out 2>&1; RC=$?
